@@ -104,10 +104,14 @@ Fixpoint cy_dedup (l : list nat) (seen : list nat) : list nat :=
 Definition cy_list_eqb (a b : list nat) : bool :=
   Nat.eqb (length a) (length b) && forallb (fun p => Nat.eqb (fst p) (snd p)) (combine a b).
 
+(* identities from [cy_untracked] on belong to 'ensure'-style transformations (no-ops on the body the operator knows): their
+   effect cannot be attributed to one identity on the server object, so only the memory is compared for them *)
+Definition cy_untracked : nat := 1000.
+
 Definition cy_obs_ok (s : cy_state) (o : cy_obs) : bool :=
   cy_list_eqb (cy_mem s) (ob_mem o) &&
   match ob_effects o with
-  | Some e => cy_list_eqb (cy_dedup (cy_applied s) []) e
+  | Some e => cy_list_eqb (filter (fun x => Nat.ltb x cy_untracked) (cy_dedup (cy_applied s) [])) e
   | None => true
   end.
 
